@@ -23,3 +23,12 @@ impl NameResolution {
 pub open spec fn must_report(p: AstPath, deps: Set<Seq<char>>, cur: Seq<char>, imports: Set<Seq<char>>) -> bool {
     deps.contains(first_seg(p)) && !may_name(first_seg(p), cur, imports)
 }
+
+// ---- constructor paths `P::Enum::Variant` (fragment ctor_path_gate of NameResolution::constructor_path_for): the only gate a PATTERN goes through ----
+impl ConstructorIndex {
+    pub uninterp spec fn has(&self, package: Seq<char>, enum_name: Seq<char>, variant: Seq<char>) -> bool;
+    #[verifier::external_body]
+    pub fn enum_has_variant(&self, package: &String, enum_name: &String, variant: &String) -> (r: bool) ensures r == self.has(package@, enum_name@, variant@) { unimplemented!() }
+}
+#[verifier::external_body] pub struct HirPath { _p: u64 }
+#[verifier::external_body] pub fn constructor_path(package: &String, enum_name: &String, variant: &String) -> (r: HirPath) { unimplemented!() }
